@@ -83,6 +83,9 @@ def gen_reader_cases(ctx, n_streams):
         ('rtureq', [bytes([1, 7, 0, 0])]), ('rtursp', [bytes([1, 0x2B, 0, 0])]), ('rtureq', [bytes([1, 0x81, 1, 0, 0])]),
         ('rtureq', [bytes([5])]), ('rtureq', []),
     ]
+    for line in fc.load_corpus('C06', 'reader.txt'):
+        cases.append(fc.case_from_line(line))
+        tags.append(({'corpus'}, 'corpus'))
     for role, d in directed:
         for fin in ['eof', 'pending']:
             for mode in ['stop', 'resume']:
@@ -118,7 +121,7 @@ def gen_reader_cases(ctx, n_streams):
 # ---------------------------------------------------------------- emission
 def gen_emit_cases(ctx, n):
     r = ctx.rng
-    lines = []
+    lines = fc.load_corpus('C06', 'emit.txt')
     counts_bits = [1, 2, 7, 8, 9, 15, 16, 17, 1000, 1967, 1968, 1969, 2000, 2001]
     counts_regs = [1, 2, 3, 100, 122, 123, 124, 125, 126]
     for k in ['rc', 'rd']:
